@@ -231,7 +231,9 @@ func (c *FuncCtx) prelude() []string {
 	}
 	if c.mode == ModeInt {
 		p = append(p,
-			"(assert (forall ((s Str)) (! (and (>= (slen s) 0) (< (slen s) 140737488355328)) :pattern ((slen s)))))",
+			// NOTE: no universal upper bound on slen: together with the concatenation / byte-slice constructors it would be
+			// inconsistent (the bound is a fact about Go VALUES of type string: typeInvD)
+			"(assert (forall ((s Str)) (! (>= (slen s) 0) :pattern ((slen s)))))",
 			"(assert (forall ((s Str)) (! (=> (= (slen s) 0) (= s str_empty)) :pattern ((slen s)))))",
 			"(assert (forall ((s Str) (i Int)) (! (and (<= 0 (sat s i)) (< (sat s i) 256)) :pattern ((sat s i)))))",
 			"(define-fun tdiv ((x Int) (y Int)) Int (ite (>= x 0) (ite (> y 0) (div x y) (- (div x (- y)))) (ite (> y 0) (- (div (- x) y)) (div (- x) (- y)))))",
